@@ -10,6 +10,10 @@ def run(ctx):
     q = ctx.tier == "quick"
     common.replay_layer(ctx, "MC_Reporters.tla", "MC_Reporters_quick.cfg" if q else "MC_Reporters_thorough.cfg", "reporters-replay", "reporters",
                         workers=10, heap="3g", shape_filter=lambda sh: sh.startswith(REG_SHAPES) or sh.startswith("summary-"))
+    # random logs of up to 8 days x up to 8 entries (foods repeating within a day) over nested books: the real
+    # reporters' per-day chunks validated step by step against Trace_Reporters.tla
+    common.trace_layer(ctx, "reporters-trace", "Trace_Reporters.tla", "Trace_Reporters.cfg", "reporters", "reporters-trace-rejected",
+                       {"logs": 150 if q else 4000}, "cmd/hranoprovod-cli")
     return vlib.finish(
         ctx, "model_checking",
         rule="Reporters.tla: every first day of <= 3 entries over 3 foods (one with two elements of opposite sign, one defined empty, one "
